@@ -153,6 +153,11 @@ impl<'a> TryFrom<&'a str> for Header<'a> {
             None => input.len(),
         };
 
+        // The byte after the first `\r` may be the start of a multi-byte character.
+        if !input.is_char_boundary(length) {
+            return Err(ParseError::InvalidSuffix);
+        }
+
         parse_header(&input[..length])
     }
 }
